@@ -209,7 +209,7 @@ def run(chk, replay=None):
     ]
     if not getattr(chk, "model_ok", False):
         return
-    shapes = json.load(open(os.path.join(WORK, "gen", "serde_shapes.json")))
+    shapes = json.load(open(os.path.join(GEN_WORK, "serde_shapes.json")))
     known = {k["class"]: k for k in load_known() if k.get("kind") == "finding" and k.get("property") == "C18"}
     quick = chk.tier == "quick"
     cases = []
